@@ -4,7 +4,7 @@ import PoxModel.Model.PacketHdr
 
 Mirrors `pox/datapaths/switch.py` **after the proposed repairs** D7 (`_action_enqueue` reads `action.port`),
 D8 (`output:TABLE` goes to `_lookup_packet`, the table-lookup half of `rx_packet`, instead of re-entering `rx_packet`),
-C12-2 (`strip_vlan` leaves a tag that did not parse alone) and C12-1 (`set_vlan_vid` / `set_vlan_pcp` reduce their argument to the 12 / 3 bits of the tag field).  The behaviour of
+C12-2 (`strip_vlan` leaves a tag that did not parse alone), C12-6 (`set_nw_tos` replaces the six DSCP bits and keeps the ECN bits) and C12-1 (`set_vlan_vid` / `set_vlan_pcp` reduce their argument to the 12 / 3 bits of the tag field).  The behaviour of
 the unrepaired lines is kept as `Variant` switches (used only by the `…_defect` witnesses and by the harness when it
 replays a defect): see `Variant` below.
 
@@ -95,6 +95,7 @@ structure Variant where
   d8 : Bool := false      -- `output:TABLE` calls `rx_packet` (receive checks and counters again)
   c121 : Bool := false    -- VLAN actions store the argument unreduced
   c122 : Bool := false    -- `strip_vlan` also "strips" a `vlan` object that did not parse (`set_payload(None)` raises)
+  c126 : Bool := false    -- `set_nw_tos` stores all 8 bits of the argument (the ECN bits of the packet are overwritten)
   deriving DecidableEq, Repr
 
 /-- a parsed `ethernet` object: its attributes and its `next` -/
@@ -166,7 +167,9 @@ def handle1 (var : Variant) (a : Action) (f : Frame) : M Frame :=
   | .setDlDst a => .ok { f with eth := { f.eth with dst := a } }
   | .setNwSrc a => .ok { f with pay := updIp (fun h n => .ipv4 { h with src := a } n) f.pay }
   | .setNwDst a => .ok { f with pay := updIp (fun h n => .ipv4 { h with dst := a } n) f.pay }
-  | .setNwTos t => .ok { f with pay := updIp (fun h n => .ipv4 { h with tos := t } n) f.pay }
+  -- repair C12-6: `nw.tos = (nw.tos & 0x03) | (action.nw_tos & 0xfc)` (disjoint bits: `|` is `+`; `x & 3` is `x % 4`,
+  -- `t & 0xfc` of the 8-bit wire value is `t % 256 / 4 * 4`); unrepaired: `nw.tos = action.nw_tos`
+  | .setNwTos t => .ok { f with pay := updIp (fun h n => .ipv4 { h with tos := if var.c126 then t else h.tos % 4 + t % 256 / 4 * 4 } n) f.pay }
   | .setTpSrc p => .ok { f with pay := updIp (fun h n => .ipv4 h (updTp (fun u => { u with sport := p })
                                                                         (fun t => { t with sport := p }) n)) f.pay }
   | .setTpDst p => .ok { f with pay := updIp (fun h n => .ipv4 h (updTp (fun u => { u with dport := p })
